@@ -40,7 +40,7 @@ func genComponentFile(c *core.Ctx, idx int) (compDef, []model.Stmt) {
 	for a := 0; a < nArgs; a++ {
 		def.args = append(def.args, fmt.Sprintf("p%d", a))
 	}
-	switch r.Intn(5) {
+	switch r.Intn(7) {
 	case 0:
 	case 1:
 		def.slots = []string{""}
@@ -48,6 +48,10 @@ func genComponentFile(c *core.Ctx, idx int) (compDef, []model.Stmt) {
 		def.slots = []string{"head"}
 	case 3:
 		def.slots = []string{"head", ""}
+	case 4: // names with blanks at their ends and inside, and a name that is one blank
+		def.slots = []string{" note ", "a b", ""}
+	case 5:
+		def.slots = []string{" ", "head ", " head"}
 	default:
 		def.slots = []string{"head", "foot", ""}
 	}
